@@ -357,9 +357,9 @@ theorem sound_attr {ct : ClassTable} {W : World} {Γ : Env} {ρ : VEnv} {r : Exp
 
 /-- a base class, a subclass overriding nothing, a member found on the base through the chain; a property; a method call -/
 example :
-    let ct : ClassTable := [⟨['C'], none, [⟨['n'], .field, .int⟩, ⟨['p'], .property, .str⟩, ⟨['g'], .method, .list .int⟩,
+    let ct : ClassTable := [⟨['C'], [], [⟨['n'], .field, .int⟩, ⟨['p'], .property, .str⟩, ⟨['g'], .method, .list .int⟩,
         ⟨['_', '_', 'i', 't', 'e', 'r', '_', '_'], .method, .cls ['C'] .nil⟩, ⟨['_', '_', 'n', 'e', 'x', 't', '_', '_'], .method, .float⟩]⟩,
-      ⟨['D'], some ['C'], [⟨['k'], .classVar, .bool⟩]⟩]
+      ⟨['D'], [['C']], [⟨['k'], .classVar, .bool⟩]⟩]
     let Γ : Env := [(['d'], .cls ['D'] .nil)]
     inferT ct Γ (.attr (.var ['d']) ['n']) = .ok .int ∧ wt ct Γ (.attr (.var ['d']) ['n']) = true ∧
     inferT ct Γ (.attr (.var ['d']) ['p']) = .ok .str ∧ inferT ct Γ (.attr (.var ['d']) ['k']) = .ok .bool ∧
@@ -483,6 +483,38 @@ example :
     inferT [] Γ (.listComp (.var ['z']) [['z']] (.var ['x']) .true_) = .ok (.list .int) ∧
     inferT [] Γ (.tern .none_ (.var ['p']) (.var ['w'])) = inferT [] Γ (.var ['x']) ∧
     inferT [] Γ (.index (.tern .none_ (.var ['p']) (.var ['w'])) (.int 0)) = .ok .int := by
+  decide +kernel
+
+/-! ## several base classes -/
+
+/-- `Reflections.__resolve_raw_recursive` over several bases is DEPTH-first, left to right: whatever the first base reaches — itself or
+    through its own bases — wins over anything a later base declares; only when the whole ancestry of the first base has nothing the
+    search goes on with the next base. (`f` = the lookup of one member name in one class; `chainFrom` with the fuel `chainOf` gives it.)
+    For tree-shaped hierarchies (no diamonds) this is the order of CPython's MRO. -/
+theorem member_depth_first (ct : ClassTable) (fuel : Nat) (c b : Str) (rest : List Str) (d : ClassDecl) (f : Str → Option Member)
+    (hc : findClass ct c = some d) (hb : d.bases = b :: rest) (hown : f c = none) :
+    (∀ m, (chainFrom ct fuel b).findSome? f = some m → (chainFrom ct (fuel + 1) c).findSome? f = some m) ∧
+    ((chainFrom ct fuel b).findSome? f = none →
+      (chainFrom ct (fuel + 1) c).findSome? f = (rest.flatMap (fun x => chainFrom ct fuel x)).findSome? f) := by
+  constructor
+  · intro m hm
+    simp only [chainFrom, hc, hb, List.findSome?_cons, hown, List.flatMap_cons, List.findSome?_append, hm, Option.some_or]
+  · intro hn
+    simp only [chainFrom, hc, hb, List.findSome?_cons, hown, List.flatMap_cons, List.findSome?_append, hn, Option.none_or]
+
+/-- `class AB(A, B)`, `A(A0)` only inherits `x: int` / `name() -> int` from `A0`, `B` declares `x: str` / `name() -> str` itself:
+    `ab.x : int`, `ab.name() : int` (a breadth-first search would answer `str`); `BA(B, A)` answers `str`; members only one side has are
+    found on that side -/
+example :
+    let ct : ClassTable := [⟨['A', '0'], [], [⟨['x'], .field, .int⟩, ⟨['n'], .method, .int⟩]⟩, ⟨['A'], [['A', '0']], [⟨['a'], .method, .bool⟩]⟩,
+      ⟨['B'], [], [⟨['x'], .field, .str⟩, ⟨['n'], .method, .str⟩, ⟨['b'], .method, .float⟩]⟩,
+      ⟨['A', 'B'], [['A'], ['B']], []⟩, ⟨['B', 'A'], [['B'], ['A']], []⟩]
+    let Γ : Env := [(['p'], .cls ['A', 'B'] .nil), (['q'], .cls ['B', 'A'] .nil)]
+    chainOf ct ['A', 'B'] = [['A', 'B'], ['A'], ['A', '0'], ['B']] ∧
+    inferT ct Γ (.attr (.var ['p']) ['x']) = .ok .int ∧ inferT ct Γ (.call (.var ['p']) ['n'] .nil) = .ok .int ∧
+    inferT ct Γ (.attr (.var ['q']) ['x']) = .ok .str ∧ inferT ct Γ (.call (.var ['q']) ['n'] .nil) = .ok .str ∧
+    inferT ct Γ (.call (.var ['p']) ['a'] .nil) = .ok .bool ∧ inferT ct Γ (.call (.var ['p']) ['b'] .nil) = .ok .float ∧
+    wt ct Γ (.attr (.var ['p']) ['x']) = true := by
   decide +kernel
 
 /-! ## lambda parameters -/
